@@ -16,7 +16,8 @@ RULE = ("seeded include trees (depth <= 3, nested directories, repeated includes
         "must be equal; a third reading of a copy with comments / blank lines / indentation / tabs added must be equal "
         "too; instances must be independent copies; #error must abort exactly when active. A separate stratum puts a "
         "conditional include after a moleculetype has started in the same file. non-trivial = tree with >= 1 "
-        "conditional include or #error and >= 2 files; distinct = hash(all file texts)")
+        "conditional include or #error and >= 2 files; distinct = hash(all file texts)"
+        ' Later: the topology reached through a symbolic link whose target lives elsewhere.')
 ASSUMPTIONS = ["#define only outside conditionals; included files start with a section header and the includer opens a new "
                "section after an include (GROMACS files are written that way; polyply parses each file with a fresh "
                "section state)",
